@@ -244,6 +244,30 @@ pub fn run(env: &Env) -> PropRun {
         }
         parts.push(run_part(env, "enum-per-char", pc.len(), true, "sizes {2x2,3x3,3x4} x all DECSTBM forms x every cursor row x primary/alternate x every scrolling command and count class, fed one character at a time through Vt::feed()", &|i| pc.get(i).cloned(), &j));
     }
+    // every proper region x origin mode on/off x every cursor row - rows above and below the
+    // region with origin mode ON are reached through a restored cursor (c05::setup)
+    {
+        let mut oc: Vec<Case> = vec![];
+        for (cols, rows) in [(2usize, 4usize), (3, 6)] {
+            let cmds = commands(cols, rows);
+            for m in super::c05::margin_options(rows) {
+                if m.is_none() {
+                    continue;
+                }
+                for origin in [false, true] {
+                    for row in 0..rows {
+                        for cmd in &cmds {
+                            let mut s = gen::fill_screen_mode(cols, rows, 1);
+                            s.push_str("\x1b[44m");
+                            s.push_str(&super::c05::setup(cols, rows, m, origin, row, 0));
+                            oc.push(Case::new(cols, rows, None).feed(s).feed(cmd.clone()));
+                        }
+                    }
+                }
+            }
+        }
+        parts.push(run_part(env, "enum-regions-origin", oc.len(), true, "sizes {2x4,3x6} x every proper scroll region x origin mode on/off x every cursor row (inside, above, below the region) x every scrolling command and count class", &|i| oc.get(i).cloned(), &j));
+    }
     let len = if env.tier == Tier::Thorough { 3 } else { 2 };
     let sb = seq_blocks(len);
     let stotal: usize = sb.iter().map(|b| b.5).sum();
